@@ -37,3 +37,4 @@ def non_utf8_symbol_name_decode_error(case, deviation):
     listing is covered; a stream that differs from the one of the untouched listing, or any other failure, is a new violation."""
     err = deviation.get("error") or []
     return deviation.get("kind") == "fails-on-non-utf8-symbol-name" and len(err) >= 1 and err[0] == "UnicodeDecodeError"
+
